@@ -134,7 +134,7 @@ class Prop(BaseProp):
         body = []
         self.doc_flags = []
         ncmd = rng.randint(2, 8)
-        if rng.random() < 0.04:
+        if rng.random() < (0.04 if self.tier == "quick" else 0.008):
             ncmd = rng.randint(150, 400)        # a file well beyond any read-buffer size, non-ASCII spread all over it
             self.big_files = getattr(self, "big_files", 0) + 1
         for k in range(ncmd):
